@@ -405,6 +405,33 @@ CHECKS['C18']['text'] += (" Further hypotheses: factor_add needs ScaleOK (necess
 CHECKS['C19']['text'] += (" pack / stack / concat succeed iff the off-axis shapes (rank included) of all leaves agree (iff theorems; the real acceptance is compared on equal-product / other-rank / empty-leaf cases); stack/unstack and split_axis/concat are two-sided inverses; replace_with_matching_or_default returns iff every default is used (iff theorem); a shape gets the names of the LAST table entry with that shape (inferDims_no_collision), two collisions are worked out explicitly.")
 CHECKS['C05']['text'] += (" Further named hypotheses: T5.2's ln ps statement is for states whose divergence survives the nodal round trip on every level; the residual formula g (lap h - clip lap h) for general orography is proved for the dry class; one_layer_total / multi_layer_total assume FactoryLaws, ZonalJet for each layer's wind (Helmholtz round trip, zonality of the stream function and the three flux fields, clip fixing the jet vorticity and X1, X2, X3), orography = none and radius != 0, all validated each run with a negative control.")
 
+# ---- after the third review (docs/audit/review3_G.md)
+for _pid in ('C04', 'C05', 'C10', 'C11', 'C12'):
+  CHECKS[_pid]['text'] = CHECKS[_pid]['text'].replace(
+      "index DYN, 77 theorems,", "index DYN, 82 theorems,").replace(
+      "and every hypothesis is a theorem on the rational M = 3 grid gT.",
+      "and every hypothesis is a theorem on the rational M = 3 grid gT (which is NOT built by ofGrid: a biorthogonal monic-Legendre pair with Walsh longitude columns and rational weights; wf_ofGrid / maskOk_ofGrid_* show that every well-shaped Grid-built record with the structural zeros satisfies WF / MaskOk, but no ofGrid-built witness is exhibited, and for the fast layout the structural zeros of the padded tables remain a hypothesis). "
+      "Of the 16 fields of the record, the 8 operations are the list-model functions conjugated by the conversion; the l-projection, the unit mode, the eigenvalue and nodal tables are direct definitions.").replace(
+      "mask closure (layouts without padding columns; with padding columns the closed set is 'masked except column L', proved and reproduced on the real Grid)",
+      "mask closure (layouts without padding columns; with padding columns the closed set PROVED is 'masked rows, padding columns free' (Loose), and on the real Grid only column L is populated: measured by the harness; the failure of strict mask closure there is proved, not_maskClosed_gPad)")
+_try_sub('C04', "T4.2 is instantiated for the concrete grid under AnalyticLaws only (total_tendency_indep_of_reference_grid; fully discharged on gT: t42_gT).",
+         "T4.2 is instantiated for the concrete grid under WF, MaskOk, NO padding column (which excludes padded FastSphericalHarmonics layouts) and AnalyticLaws (total_tendency_indep_of_reference_grid; fully discharged on gT: t42_gT).")
+_try_sub('C10', "For the mirror all operation-wise commutation laws are theorems of the instance (equivariant_mirror); the two transform laws reduce to T10.3; the rotation is not packaged for the instance.",
+         "For the mirror all operation-wise commutation laws are theorems of the instance (equivariant_mirror) given symmetric cos / sec^2 / sin node tables; the two transform laws reduce to T10.3 for the real layout only; no grid satisfying all five hypotheses is exhibited in Lean; the rotation is not packaged for the instance.")
+_try_sub('C01', "it is the identity (except the structurally zero row / column 1 of the zero-imag layout) iff 2(M-1) < N,",
+         "it is the identity iff 2(M-1) < N (real layout; for the zero-imag layout, identity except the structurally zero row / column 1, the 'if' direction is the indexed theorem),")
+_try_sub('C01', "for all N, M, L, J and any padding,", "for all N, M, L, J and any padding with an even number of padded modal rows (which the code's shapes always have),")
+_try_sub('C02', "so that vor_div_roundtrip_eps applies to ALL Dom fields of those grids)",
+         "in EXACT rational arithmetic of the model's operators on the live double arrays, so that vor_div_roundtrip_eps applies to ALL Dom fields of those grids with |round trip - id| <= 2 rows cols 2^-40 max(|vor|,|div|) below the top wavenumber (roundtrip_h1..h5; two of the clip=True cases have an empty Dom on these tiny grids); the float64 round trip of the real code is compared with that bound by a separate probe)")
+_try_sub('C18', "proved for a bit-exact double model that is compared bit for bit with the code;",
+         "proved for a double model whose floor is exact (true of jnp.floor_divide for |x / 2 pi| < 2^49, i.e. every realistic model time; beyond ~3e15 the real code differs) and which is compared bit for bit with the eager float64 code;")
+CHECKS['C18']['text'] = CHECKS['C18']['text'].replace("with the characterisation that a linearised conversion agrees only for offset 0;", "with the characterisation that a linearised conversion agrees iff offset = 0 or v = 1;")
+CHECKS['C19']['text'] += (" Domain of the array statements: all leaves of one dtype representable under the active precision (jnp.concatenate / stack promote dtypes: an int32 leaf packed with float32 leaves comes back rounded), rank >= 1, axis in range, all trees of the same structure; "
+                          "real NetCDF round trips skip tracer names that NetCDF cannot encode (non-ASCII: UnicodeEncodeError, counted in the evidence). Known findings: single-layer-nodal-3d, modal-equals-nodal-shape, multichar-separator-overlap.")
+_try_sub('C14', "else IndexError when every leaf has exactly one row, else TypeError);", "else IndexError when every leaf whose trailing size is positive has exactly one row, else TypeError; rank-0 leaves are outside the model); the ValueError for a zero non-innermost length with an output leaf IS the recorded known finding nested-scan-zero-outer;")
+CHECKS['C12']['text'] += " Known finding (reported by the check on every run): shallow_water.default_filters relies on a tau default expressed in DEFAULT_SCALE time units."
+CHECKS['C06']['note'] += ' Correspondence cases in which the random linear problem makes a resolvent singular (ZeroDivisionError / LinAlgError in the exact rational run) are skipped and counted in the evidence.'
+
 NOT_YET = {
 }
 
